@@ -457,8 +457,8 @@ const KNOWN_SWALLOW: &str = "counter:iter_error_swallowed>0";
 
 pub fn worker(ctx: &WorkerCtx) -> WorkerResult {
     let total = match ctx.tier {
-        Tier::Quick => 32u64,
-        Tier::Thorough => 1200,
+        Tier::Quick => 48u64,
+        Tier::Thorough => 1600,
     };
     let total = std::env::var("VERIF_CASES").ok().and_then(|s| s.parse().ok()).unwrap_or(total);
     let known = open_findings_for("C08");
